@@ -59,6 +59,8 @@ DayClauses(o) ==
           \o Cl("date_plus_n", IsD(r[20], CivilFromDayNumber(n + o.in.k), 0))
           \o Cl("date_minus_n", n - 7 < FirstExcelDay \/ IsD(r[21], CivilFromDayNumber(n - 7), 0))
           \o Cl("parts_of_DATE", IsN(r[22], c.y) /\ IsN(r[23], c.mo) /\ IsN(r[24], c.d) /\ IsN(r[25], Weekday(n, 2)))
+          \* DAYS sees the same serial whether an argument is a date or that date's serial number
+          \o Cl("DAYS_of_date_and_serial", IsN(r[26], n - nb) /\ IsN(r[27], n - nb) /\ IsN(r[28], n - nb))
 
 InstantClauses(o) ==
   LET c == [y |-> o.in.y, mo |-> o.in.mo, d |-> o.in.d]
